@@ -228,9 +228,10 @@ def main():
         for p, res, f in violations:
             note = None
             found = False
-            if p.replay:
+            rp = p.replay or getattr(mod, 'REPLAY', None)
+            if rp:
                 try:
-                    found, note = p.replay(REPO, f, workroot)
+                    found, note = rp(REPO, f, workroot)
                 except Exception as e:  # replay machinery must never mask the violation
                     note = 'replay raised %r' % (e,)
             else:
